@@ -65,7 +65,8 @@ Inductive err :=
 | EKeyInternal   (* KeyError from a later statement: the collections are out of step *)
 | ECtor          (* the injected constructor failure *)
 | EStart         (* the injected emitter.start() failure *)
-| EAlready.      (* RuntimeError: threads can only be started once *)
+| EAlready.      (* RuntimeError: threads can only be started once (the observer's own guard in start(), or
+                    threading.Thread.start() of an emitter that a failed earlier start() had already started) *)
 
 Inductive result := Ok | Raised (e : err).
 
@@ -189,7 +190,8 @@ Section Variant.
 
   Fixpoint start_loop (order : list emitter) (k : nat) (s : st) (flt : fault) : st * result :=
     match order with
-    | [] => if thr_started s then (s, Raised EAlready) else (set_thr s true, Ok)
+    | [] => (* super().start(): threading refuses a started thread (unreachable behind the guard of start()) *)
+            if thr_started s then (s, Raised EAlready) else (set_thr s true, Ok)
     | e :: rest =>
       if is_start flt k then start_failed s e EStart
       else if memb Nat.eqb (eid e) (started s) then start_failed s e EAlready
@@ -204,7 +206,10 @@ Section Variant.
     | RemoveHandler h w => do_remove_handler s h w
     | Unschedule w => do_unschedule s w
     | UnscheduleAll => (clear_all s, Ok)
-    | Start ord => start_loop (pick ewatch ord (emitters s)) 0 s flt
+    | Start ord =>
+      (* `if self.ident is not None: raise RuntimeError(...)` - a second start() is refused up front *)
+      if thr_started s then (s, Raised EAlready)
+      else start_loop (pick ewatch ord (emitters s)) 0 s flt
     | Stop => (clear_all (set_stopped s true), Ok)
     end.
 
@@ -282,7 +287,9 @@ Definition spec_step (t : spec) (cf : call * fault) : spec * result :=
   | Unschedule w =>
     if amem weqb w (sched t) then (spec_drop t w, Ok) else (t, Raised EKeyWatch)
   | UnscheduleAll => (mkspec [] (fun _ => []) (t_started t) (t_stopped t), Ok)
-  | Start ord => spec_start_loop (pick fst ord (sched t)) 0 t flt
+  | Start ord =>
+    if t_started t then (t, Raised EAlready)
+    else spec_start_loop (pick fst ord (sched t)) 0 t flt
   | Stop => (mkspec [] (fun _ => []) (t_started t) true, Ok)
   end.
 
